@@ -16,7 +16,7 @@ pub fn unescape(s: &str) -> Option<String> {
 			continue;
 		}
 		match chars.next()? {
-			c @ ('\\' | '"' | '\'') => out.push(c),
+			c @ ('\\' | '"' | '\'' | '/') => out.push(c),
 			'b' => out.push('\u{0008}'),
 			'f' => out.push('\u{000c}'),
 			'n' => out.push('\n'),
